@@ -273,7 +273,7 @@ def liveCheck (s : St) : List String :=
    let liveCnt := s.workers.countP (fun w => w.pc != .exited)
    let stopsSent := match s.cpc with | .exitPut i => i | .exitJoin _ | .done => s.procs.length | _ => 0
    let rCall := match s.cpc with
-     | .fInitSet | .wrSending | .wrDataCnt | .fStart | .fStopSet | .fJoin | .rPutNone => true
+     | .fInitSet | .wrSending | .wrDataCnt | .fStart | .fStopSet | .fJoin | .rPutNone | .midReady _ _ => true
      | _ => inLoop s
    let setup := match s.cpc with
      | .rInitSet | .rStart | .fInitSet | .wrSending | .wrDataCnt | .fStart => true
@@ -305,7 +305,13 @@ def liveCheck (s : St) : List String :=
    bad "M_cnt3" (!exitPhase s || decide (noneCount s.workQ ≤ stopsSent)) ++
    bad "M_cnt4" (s.cfg.factory || decide (noneCount s.workQ + s.procs.length ≤ liveCnt + stopsSent)) ++
    bad "M_flowClear" (s.cpc != .flowClear || bufferFull s) ++
-   bad "M_rFac" (!(s.cpc == .rPutNone || s.cpc == .rStopSet || s.cpc == .rJoin) || s.cfg.factory))
+   bad "M_rFac" (!(s.cpc == .rPutNone || s.cpc == .rStopSet || s.cpc == .rJoin) || s.cfg.factory) ++
+   -- mid-call `until_all_ready()` (`MidI` in Proofs/PoolLiveAux1.lean): the worker waited for exists; flow control is
+   -- engaged only in an ordered call
+   bad "M_midEx" (match s.cpc with | .midReady _ wid => (getWorker s wid).isSome | _ => true) ++
+   bad "M_midFlow" (match s.cpc with
+     | .midReady _ _ => s.fRun || (match s.cur with | some c => c.ordered | none => false)
+     | _ => true))
 
 /-- stuck: nobody can move although the caller has not finished -/
 def stuck (s : St) : Bool := s.cpc != .done && (enabledTids s).isEmpty
